@@ -22,6 +22,7 @@
 //!   `p:<bit>` flip one bit anywhere in the payload, `h:<bit>` one bit in the message headers,
 //!   `t:<n>` truncate the payload to `n mod len` bytes,
 //!   `r` replace the payload by the payload of the same message type of the previous handshake,
+//!   `S` (status report) replace the payload by a SUCCESS report (the final report travels unauthenticated),
 //!   `x:<tag>` substitute field `<tag>` by its value in the previous handshake.
 //! `sched=` verdict per datagram in send order: `d` deliver, `x` drop, `u` duplicate, `l<ms>` delay.
 //!
@@ -32,6 +33,10 @@
 //!       by that of the device's record of the OTHER fabric (MIC unchanged); `e:<k>` both.
 //!       `race=<k>`: the RemoveFabric state changes run on the device at the k-th scheduling round after the initiator's
 //!       final status report went onto the wire (k=1: before the responder sees it, k>=2: right after it finished).
+//!       `gap=<r2|s2>`: the same state changes run on the device right after its FIRST `Sigma2_Resume` (`r2`) / `Sigma2`
+//!       (`s2`) went onto the wire, i.e. while the responder waits for the acknowledgement inside `send_with` — between
+//!       the `Resume1MIC` check and the fabric look-up of `try_handle_sigma1_resume`, resp. between Sigma2 and the
+//!       fabric re-read of `handle_casesigma3`. The outcome carries the word `gapped` when the removal ran.
 //!   `rmfab`      the device removes its fabric the way the RemoveFabric handler does (`Fabrics::remove`,
 //!                `Sessions::remove_for_fabric`, `ResumableSessions::remove_for_fabric`); `=> removed dc=<cache>`
 //!   `addfab root=<rec> dnoc=<rec> dicac=<rec|-> [dkey=<k>]`   the device installs a fabric (it re-uses the index)
@@ -279,6 +284,11 @@ fn apply(m: &Mutation, data: &[u8], off: usize, prev: &std::collections::HashMap
             out.truncate(off);
             out.extend_from_slice(old);
         }
+        "S" => {
+            // a forged SUCCESS status report: GeneralCode 0, protocol id 0 (secure channel), SessionEstablishmentSuccess 0
+            out.truncate(off);
+            out.extend_from_slice(&[0u8; 8]);
+        }
         "x" => {
             let old = prev.get(&m.msg)?;
             let (s, l) = field_range(&data[off..], m.a as u8)?;
@@ -411,7 +421,7 @@ fn install<C: Crypto>(crypto: &C, keys: &Keys, m: &Matter, root: &Rec, noc: &Rec
 
 /// `crypto` lives as long as the case: `test_only_crypto()` seeds its generator identically on every call, so a
 /// fresh instance per handshake would make every handshake draw the same "random" values
-fn handshake<C: Crypto>(crypto: &C, n: &Nodes, mutation: Option<Mutation>, sched: Vec<Verdict>, fab: u8, race: u8) -> String {
+fn handshake<C: Crypto>(crypto: &C, n: &Nodes, mutation: Option<Mutation>, sched: Vec<Verdict>, fab: u8, race: u8, gap: Option<String>) -> String {
     // guard: a datagram storm (two nodes answering each other without end) must not take the
     // harness down; after `CAP` datagrams everything is dropped and the outcome says `storm`
     const CAP: u64 = 1500;
@@ -450,6 +460,8 @@ fn handshake<C: Crypto>(crypto: &C, n: &Nodes, mutation: Option<Mutation>, sched
         }
     }
     let st_seen: Rc<std::cell::Cell<bool>> = Rc::new(std::cell::Cell::new(false));
+    // `gap`: the named message of the DEVICE has gone onto the wire
+    let gap_seen: Rc<std::cell::Cell<bool>> = Rc::new(std::cell::Cell::new(false));
     let ack_seen: Rc<std::cell::Cell<bool>> = Rc::new(std::cell::Cell::new(false));
     let seen: Rc<RefCell<std::collections::HashMap<String, Vec<u8>>>> = Rc::new(RefCell::new(Default::default()));
     // the first Sigma1 as DELIVERED (after the mutation, if any)
@@ -462,6 +474,8 @@ fn handshake<C: Crypto>(crypto: &C, n: &Nodes, mutation: Option<Mutation>, sched
         let mut done = false;
         let st_seen = st_seen.clone();
         let ack_seen2 = ack_seen.clone();
+        let gap_seen2 = gap_seen.clone();
+        let gap2 = gap.clone();
         net.set_tamper(Box::new(move |_seq, from, _to, data| {
             if from == 0 && st_seen.get() {
                 // the device answers the initiator's final status report (its acknowledgement)
@@ -470,6 +484,9 @@ fn handshake<C: Crypto>(crypto: &C, n: &Nodes, mutation: Option<Mutation>, sched
             let (name, off) = classify(data)?;
             if name == "st" && from == 1 {
                 st_seen.set(true);
+            }
+            if from == 0 && gap2.as_deref() == Some(name) {
+                gap_seen2.set(true);
             }
             seen.borrow_mut().entry(name.to_string()).or_insert_with(|| data[off..].to_vec());
             let res = match mutation.as_ref() {
@@ -515,6 +532,7 @@ fn handshake<C: Crypto>(crypto: &C, n: &Nodes, mutation: Option<Mutation>, sched
     // flight - polled right before the responder, so that they land between the initiator's SigmaFinished and the
     // responder's processing of it
     let raced = std::cell::Cell::new(false);
+    let gapped = std::cell::Cell::new(false);
     let polls = std::cell::Cell::new(0u32);
     let saboteur = core::future::poll_fn(|_cx| {
         // `race = k`: at the k-th poll after the initiator's final status report went onto the wire
@@ -522,8 +540,14 @@ fn handshake<C: Crypto>(crypto: &C, n: &Nodes, mutation: Option<Mutation>, sched
             polls.set(polls.get() + 1);
         }
         let _ = &ack_seen;
-        if race > 0 && polls.get() == race as u32 && !raced.get() {
-            raced.set(true);
+        let gap_now = gap_seen.get() && !gapped.get();
+        if gap_now {
+            gapped.set(true);
+        }
+        if (race > 0 && polls.get() == race as u32 && !raced.get()) || gap_now {
+            if !gap_now {
+                raced.set(true);
+            }
             if let Some(idx) = n.dev_fab.get() {
                 n.dev.with_state(|st| {
                     if st.fabrics.remove(idx).is_ok() {
@@ -587,6 +611,7 @@ fn handshake<C: Crypto>(crypto: &C, n: &Nodes, mutation: Option<Mutation>, sched
         .and_then(|p| field_range(p, 6).map(|(s, l)| n.names.name(&p[s..s + l]).to_string()))
         .unwrap_or_else(|| "-".into());
     let storm = if raced.get() { format!("{} raced", storm) } else { storm.to_string() };
+    let storm = if gapped.get() { format!("{} gapped", storm) } else { storm };
     format!(
         "t={} ctl={} dev={} keys={} init={}{} via={} rid={} cc={} dc={}",
         ts,
@@ -779,6 +804,7 @@ fn run_case(out: &mut Out, case: &Case) {
         }
         let get = |k: &str| toks[1..].iter().find_map(|t| kv(t, k)).and_then(|v| if v == "-" { None } else { Rec::parse(v) });
         let key = |k: &str| toks[1..].iter().find_map(|t| kv(t, k)).and_then(|v| v.parse::<u64>().ok());
+        let gapk: Option<String> = toks[1..].iter().find_map(|t| kv(t, "gap")).map(|v| v.to_string());
         let res = std::panic::catch_unwind(std::panic::AssertUnwindSafe(|| match toks.first().copied() {
             Some("hs") => {
                 let (Some(root), Some(cnoc), Some(dnoc)) = (get("root"), get("cnoc"), get("dnoc")) else {
@@ -791,7 +817,7 @@ fn run_case(out: &mut Out, case: &Case) {
                     Ok(n) => n,
                     Err(e) => return e,
                 };
-                let r = handshake(&crypto, &n, mutation, sched, 1, 0);
+                let r = handshake(&crypto, &n, mutation, sched, 1, 0, gapk.clone());
                 nodes = Some(n);
                 r
             }
@@ -801,7 +827,7 @@ fn run_case(out: &mut Out, case: &Case) {
                     if fab == 2 && n.fab2.get().is_none() {
                         return "nostate".to_string();
                     }
-                    handshake(&crypto, n, mutation, sched, fab, key("race").unwrap_or(0) as u8)
+                    handshake(&crypto, n, mutation, sched, fab, key("race").unwrap_or(0) as u8, gapk.clone())
                 }
                 None => "nostate".to_string(),
             },
@@ -866,8 +892,8 @@ fn run_case(out: &mut Out, case: &Case) {
                     Ok(n) => n,
                     Err(e) => return e,
                 };
-                let a = handshake(&crypto, &n, None, vec![], 1, 0);
-                let b = handshake(&crypto, &n, None, vec![], 1, 0);
+                let a = handshake(&crypto, &n, None, vec![], 1, 0, None);
+                let b = handshake(&crypto, &n, None, vec![], 1, 0, None);
                 *foreign.borrow_mut() = n.prev.borrow().clone();
                 let ok = a.contains("keys=agree") && b.contains("keys=agree") && b.contains("via=r");
                 format!("foreign {}", if ok { "resumed" } else { "failed" })
@@ -1165,6 +1191,71 @@ pub fn gen(a: &Args) -> String {
             ops.push("again".to_string());
         }
         ops.push(format!("again race={}", 1 + (i / 2) % 3));
+        ops.push(format!("addfab root={} dnoc={} dicac={}", c.0.text(), d.2.text(), o(&d.1)));
+        ops.push("again".to_string());
+        ops.push("again".to_string());
+        emit(&mut out, ops);
+    }
+
+    // ---- 2e. a forged SUCCESS report in the place of the responder's final status report (audit C01-2): the controller
+    // presents a defective chain, the responder refuses Sigma3, the initiator is told "success"
+    {
+        let step = if a.thorough { 1 } else { 5 };
+        let mut k = 0;
+        while k < N_DEFECTS {
+            let mut cr = r.fork();
+            let (fab, c, d) = base(&mut cr, k % 2 == 1);
+            let root = c.0.clone();
+            let mut ch = Chain { fab, root: root.clone(), icac: c.1.clone(), noc: c.2.clone(), time: String::new(), secs };
+            if defect_at(&mut cr, &mut ch, reliable, Some((k, 0))).is_some() && ch.root == root {
+                out.stat("kind_forged_success_report", 1);
+                let o = |x: &Option<Rec>| x.as_ref().map(|r| r.text()).unwrap_or_else(|| "-".into());
+                let extra = format!("cpnoc={} cpicac={} mut=st:S", ch.noc.text(), o(&ch.icac));
+                emit(&mut out, vec![hs_line(&root, &c, &d, None, &extra), "again".to_string()]);
+            }
+            k += step;
+        }
+        // on an honest handshake and on a resumed one the forged report changes nothing
+        let mut cr = r.fork();
+        let (_, c, d) = base(&mut cr, false);
+        out.stat("kind_forged_success_report", 1);
+        emit(&mut out, vec![hs_line(&c.0, &c, &d, None, "mut=st:S"), "again mut=st:S".to_string(), "again".to_string()]);
+    }
+
+    // ---- 2d. the RemoveFabric state changes hit the device INSIDE the responder's handler: after Sigma2_Resume went out
+    // (before the fabric look-up of `try_handle_sigma1_resume`), after Sigma2 went out (before the re-read at Sigma3)
+    let n_gap = if a.thorough { 32 } else { 8 };
+    for i in 0..n_gap {
+        let mut cr = r.fork();
+        let (_, c, d) = base(&mut cr, false);
+        let o = |x: &Option<Rec>| x.as_ref().map(|r| r.text()).unwrap_or_else(|| "-".into());
+        out.stat("kind_remove_inside_handler", 1);
+        let mut ops = vec![];
+        match i % 4 {
+            // resumed handshake, removal after Sigma2_Resume
+            0 => {
+                ops.push(hs_line(&c.0, &c, &d, None, ""));
+                ops.push("again gap=r2".to_string());
+            }
+            // second resumption in a row
+            1 => {
+                ops.push(hs_line(&c.0, &c, &d, None, ""));
+                ops.push("again".to_string());
+                ops.push("again gap=r2".to_string());
+            }
+            // full handshake, removal after Sigma2
+            2 => {
+                ops.push(hs_line(&c.0, &c, &d, None, "gap=s2"));
+            }
+            // full handshake after a resumption offer that is declined is not reachable here; a full one on known nodes:
+            _ => {
+                ops.push(hs_line(&c.0, &c, &d, None, ""));
+                ops.push("rmfab".to_string());
+                ops.push(format!("addfab root={} dnoc={} dicac={}", c.0.text(), d.2.text(), o(&d.1)));
+                ops.push("again gap=s2".to_string());
+            }
+        }
+        // afterwards: the fabric comes back under the re-used index, a FULL handshake must follow, then a resumed one
         ops.push(format!("addfab root={} dnoc={} dicac={}", c.0.text(), d.2.text(), o(&d.1)));
         ops.push("again".to_string());
         ops.push("again".to_string());
